@@ -21,6 +21,7 @@ type vhAnn struct {
 	value    string
 	hasAlias bool
 	alias    string
+	badAlias bool // the `name` property is not a string
 }
 
 type vhLinkIn struct {
@@ -42,6 +43,11 @@ func vhContains(xs []string, s string) bool {
 
 // the property's acceptance predicate for the linking rules
 func vhRefLinkAccept(in vhLinkIn) bool {
+	for _, a := range in.anns {
+		if a.badAlias {
+			return false // a property of the wrong type is an error
+		}
+	}
 	// URL names pairwise distinct
 	for i := range in.urlNames {
 		for j := range in.urlNames {
@@ -120,7 +126,7 @@ func vhRefLinkAccept(in vhLinkIn) bool {
 	return true
 }
 
-func vhC10Link(maxUrl, maxParams, maxAnns int) {
+func vhC10Link(maxUrl, maxParams, maxAnns int, allowBadAlias bool) {
 	var in vhLinkIn
 	route := "/r"
 	nu := symxChoice("url.n", maxUrl+1)
@@ -160,9 +166,14 @@ func vhC10Link(maxUrl, maxParams, maxAnns int) {
 		a := vhAnn{kind: vhParamKinds[symxChoice(t+".kind", len(vhParamKinds))], value: symxString(t+".value", 1, 1, "abc")}
 		props := map[string]any{}
 		if a.kind != annotations.GleeceAnnotationBody && symxBool(t+".hasAlias") {
-			a.hasAlias = true
-			a.alias = symxString(t+".alias", 1, 1, "abx")
-			props["name"] = a.alias
+			if allowBadAlias && a.kind == annotations.GleeceAnnotationPath && symxBool(t+".aliasIsNumber") {
+				a.badAlias = true
+				props["name"] = float64(12)
+			} else {
+				a.hasAlias = true
+				a.alias = symxString(t+".alias", 1, 1, "abx")
+				props["name"] = a.alias
+			}
 		}
 		in.anns = append(in.anns, a)
 		attrs = append(attrs, annotations.Attribute{Name: a.kind, Value: a.value, Properties: props,
@@ -236,7 +247,10 @@ func vhC10Link(maxUrl, maxParams, maxAnns int) {
 	symxAssert(noDup, "C18.no-duplicate-diagnostics")
 }
 
-func vh_C10_link_Q() { vhC10Link(1, 2, 2) }
+func vh_C10_link_Q() { vhC10Link(1, 2, 2, false) }
+
+// malformed `name` properties: rejected, and reported once
+func vh_C10_link_badalias_Q() { vhC10Link(1, 1, 2, true) }
 
 // ---- C04 (v): enforceSecurityOnAllRoutes leaves no open route
 
@@ -302,4 +316,13 @@ func vh_C10_retsig_verb_Q() {
 		symxCover("C10.verb.unsupported")
 	}
 	symxAssert(verbRejected == !supported, "C10.verb.supported-iff-accepted")
+}
+
+// C18: no diagnostic is reported twice, also when several rules complain about the same annotation
+func vh_C18_no_duplicate_diagnostics_Q() { vhC10Link(1, 1, 2, true) }
+
+// C14: the validators never panic on these inputs (assertions off, only crashes count)
+func vh_C14_validators_Q() {
+	symxAssertionsOff()
+	vhC10Link(1, 1, 2, true)
 }
